@@ -8,7 +8,7 @@ from vk.render_verilog import render_verilog, fit_to_lib, LIBS
 from vk.props.c19 import expected_cells
 
 ID = 'C14'
-RULE = ('Hypothesis-generated netlists rendered as Verilog over a built-in library (single-output cells, flip-flops, escaped instance names with brackets), '
+RULE = ('Part api: per library a one-cell circuit built with Node/Line in three line-creation orders (the annotated pin fed by line 0). Part annotate: Hypothesis-generated netlists rendered as Verilog over a built-in library (single-output cells, flip-flops, escaped instance names with brackets), '
         'parsed with branchforks in {True, False}, plus a generated SDF model: header fields in random order, IOPATH entries per (instance, connected '
         'input pin, edge in {none, posedge, negedge}) with one or two value lists whose triples have independently empty members or are (), '
         'INTERCONNECT entries from driver pin / input port to reader pin (only where a target line exists: branch fork, or sole reader), entries '
@@ -272,4 +272,46 @@ def prop(case):
     return Obs(multi and edge_used and empty_used, labels, checks=2)
 
 
-PARTS = [Part('annotate', prop, strategy=cases, quick=(8, 120), thorough=(16, 2500))]
+def enum_api(tier):
+    """circuits put together with Node / Line directly (not parsed): any line, also the very first one, may be the one that feeds an annotated pin"""
+    for lib in LIBNAMES:
+        for first in (0, 1, 2):
+            yield dict(lib=lib, first=first)
+
+
+def prop_api(case):
+    from kyupy import sdf, techlib
+    from kyupy.circuit import Circuit, Node, Line
+    lib = case['lib']
+    tlib = getattr(techlib, lib)
+    cell, ipins, opin = LIBS[lib]['cells'][('NAND', 2)]
+    c = Circuit('top')
+    a, b_, z = Node(c, 'a', 'input'), Node(c, 'b', 'input'), Node(c, 'z', 'output')
+    fa, fb, fz = Node(c, 'a'), Node(c, 'b'), Node(c, 'z')
+    u1 = Node(c, 'u1', cell)
+    todo = [lambda: Line(c, fa, (u1, tlib.pin_index(cell, ipins[0]))), lambda: Line(c, fb, (u1, tlib.pin_index(cell, ipins[1]))),
+            lambda: Line(c, (u1, tlib.pin_index(cell, opin)), fz), lambda: Line(c, a, fa), lambda: Line(c, b_, fb), lambda: Line(c, fz, z)]
+    k = case['first']
+    lines = [f() for f in todo[k:] + todo[:k]]          # creation order rotated: line 0 is the one into pin A / pin B / out of the cell
+    for n in (a, b_, z):
+        c.io_nodes.append(n)
+    text = f'''(DELAYFILE (SDFVERSION "OVI 2.1") (DESIGN "top")
+(CELL (CELLTYPE "{cell}") (INSTANCE u1)
+  (DELAY (ABSOLUTE (IOPATH {ipins[0]} {opin} (1.0:2.0:3.0) (4.0:5.0:6.0)) (IOPATH (negedge {ipins[1]}) {opin} (0.5::0.75) ()))))
+)'''
+    got = np.array(sdf.parse(text).iopaths(c, tlib))
+    exp = np.zeros((3, len(c.lines), 2, 2))
+    la = u1.ins[tlib.pin_index(cell, ipins[0])].index
+    lb = u1.ins[tlib.pin_index(cell, ipins[1])].index
+    exp[:, la, :, 0] = np.array([1.0, 2.0, 3.0])[:, None]
+    exp[:, la, :, 1] = np.array([4.0, 5.0, 6.0])[:, None]
+    exp[:, lb, 1, 0] = [0.5, 0.0, 0.75]
+    if got.shape != exp.shape or not np.array_equal(got, exp):
+        bad = np.argwhere(got != exp)[0].tolist() if got.shape == exp.shape else None
+        raise Violation(f'{lib}: circuit built with Node/Line, pin {ipins[0]} fed by line {la}, pin {ipins[1]} by line {lb}: iopaths differs at {bad}: '
+                        f'{got[tuple(bad)] if bad else got.shape} instead of {exp[tuple(bad)] if bad else exp.shape}')
+    return Obs(la == 0 or lb == 0, [lib, f'first_line_{["into_pin0", "into_pin1", "out_of_cell"][k]}'], checks=int(exp.size))
+
+
+PARTS = [Part('api', prop_api, enumerate=enum_api, quick=(2, 0), thorough=(2, 0)),
+         Part('annotate', prop, strategy=cases, quick=(8, 120), thorough=(16, 2500))]
